@@ -114,10 +114,17 @@ func c14One(c *vf.Ctx, sub string, i int, r *rand.Rand, ids []Ident) {
 	dst := NewStore()
 	var hookCount sync.Map // goroutine id -> *atomic.Int64 (hooks since its last sync.enter)
 	prevHook := adPrevHook(dst, &hookLog{})
+	var cancelByG sync.Map // goroutine id -> context.CancelFunc of the explicit sync it is running
 	hook := func(p peer.ID, cd cid.Cid, act dagsync.SegmentSyncActions) {
 		v, _ := hookCount.LoadOrStore(goroutineID(), new(atomic.Int64))
 		v.(*atomic.Int64).Add(1)
 		prevHook(p, cd, act) // tells a segmented sync where to continue
+		// the caller of an explicit sync may give up while the blocks are being reported: a sync that completes
+		// all the same is notified like any other
+		if fn, ok := cancelByG.LoadAndDelete(goroutineID()); ok {
+			fn.(context.CancelFunc)()
+			c.Inc("explicit_syncs_whose_context_ended_while_blocks_were_reported")
+		}
 	}
 	sopts := []dagsync.Option{dagsync.RecvAnnounce(""), dagsync.BlockHook(hook)}
 	if seg > 0 {
@@ -214,7 +221,13 @@ func c14One(c *vf.Ctx, sub string, i int, r *rand.Rand, ids []Ident) {
 			so = append(so, dagsync.WithStopAdCid(stop))
 			c.Inc("explicit_syncs_with_stop_cid")
 		}
-		if got, err := s.SyncAdChain(context.Background(), p.front.AddrInfo(), so...); err == nil && got.Defined() && en.(*atomic.Int64).Load() > before {
+		ctx, cancel := context.WithCancel(context.Background())
+		defer cancel()
+		if n := resyncSeq.Load() % 8; n == 1 || n == 5 {
+			cancelByG.Store(goroutineID(), cancel)
+			defer cancelByG.Delete(goroutineID())
+		}
+		if got, err := s.SyncAdChain(ctx, p.front.AddrInfo(), so...); err == nil && got.Defined() && en.(*atomic.Int64).Load() > before {
 			explicitOK.Add(1)
 		}
 	}
@@ -338,8 +351,10 @@ func c14One(c *vf.Ctx, sub string, i int, r *rand.Rand, ids []Ident) {
 			}
 			time.Sleep(500 * time.Microsecond)
 		}
-		// the distributor has forwarded everything emitted?
-		for time.Now().Before(deadline) && tl.count("dist.forward") < tl.count("event.emit.end") {
+		// the distributor has forwarded everything emitted? (a bounded wait, not a verdict: what each listener had to
+		// receive is decided from the log afterwards)
+		fdl := time.Now().Add(15 * time.Second)
+		for time.Now().Before(fdl) && tl.count("dist.forward") < tl.count("event.emit.end") {
 			time.Sleep(200 * time.Microsecond)
 		}
 	}
@@ -582,6 +597,15 @@ func c14One(c *vf.Ctx, sub string, i int, r *rand.Rand, ids []Ident) {
 				if ordinal[em] < len(cl) && len(cl) == ordN[string(g.PeerID)+"|"+g.Cid.String()] {
 					want, ok = cl[ordinal[em]], true
 				}
+				if ok && want != g.Count && len(cl) > 1 {
+					// (the same head was notified several times and this listener did not have to get all of them:
+					// which of those notifications it holds is not determined by the CID; any of their counts will do)
+					for _, alt := range cl {
+						if alt == g.Count {
+							ok = false
+						}
+					}
+				}
 				if ok && want != g.Count {
 					c.Fail(sub, i, "notification-count-differs", fmt.Sprintf("listener %d: count %d, the sync reported %d blocks", l.id, g.Count, want), lw())
 				}
@@ -592,8 +616,15 @@ func c14One(c *vf.Ctx, sub string, i int, r *rand.Rand, ids []Ident) {
 				break
 			}
 		}
-		// MUST-set
+		// MUST-set. Where the same head is notified more than once (resyncs), the pairing above is one of several
+		// possible ones, so "missed" is decided on its own: per publisher, the notifications the listener had to get,
+		// in emission order, must be found in that order among those it received from that publisher.
 		missing := 0
+		recvPos := map[peer.ID]int{}
+		recvOf := map[peer.ID][]cid.Cid{}
+		for _, g := range got {
+			recvOf[g.PeerID] = append(recvOf[g.PeerID], g.Cid)
+		}
 		for _, em := range emits {
 			must := em.begin > l.regRet && (l.cancelAt == 0 || (em.fwd != 0 && em.fwd < l.cancelAt))
 			if closeAtEnd && l.cancelAt == 0 {
@@ -601,7 +632,14 @@ func c14One(c *vf.Ctx, sub string, i int, r *rand.Rand, ids []Ident) {
 			}
 			if must {
 				c.Inc("must_deliveries_checked")
-				if !used[em] {
+				rl := recvOf[em.peer]
+				x := recvPos[em.peer]
+				for x < len(rl) && !rl[x].Equals(em.cid) {
+					x++
+				}
+				if x < len(rl) {
+					recvPos[em.peer] = x + 1
+				} else {
 					missing++
 				}
 			} else if used[em] {
